@@ -3,6 +3,7 @@ package props
 import (
 	"bytes"
 	"fmt"
+	"github.com/uber-go/gopatch/verif/ref"
 	"go/ast"
 	"go/format"
 	"go/parser"
@@ -69,6 +70,30 @@ func (cs *c04xCase) build() (patch, file string) {
 			}
 		}
 		f.WriteString("\tpost()\n}\n")
+	case "grouped":
+		// fields declared in groups ("a, b string"): a pattern element with
+		// a single name is not an instance of a group, and elided groups
+		// come back as groups. cs.Pattern[0] selects the list kind.
+		switch cs.Pattern[0] {
+		case "params":
+			p.WriteString("@@\n@@\n-func tgt(..., a string, ...) {\n+func tgq(..., a Path, ...) {\n   ...\n }\n")
+			f.WriteString("package p\n\n")
+			for i, l := range cs.Lists {
+				f.WriteString(fmt.Sprintf("func tgt(%s) {\n\tbody%d()\n}\n\n", strings.Join(l, ", "), i))
+			}
+		case "results":
+			p.WriteString("@@\n@@\n-func tgt() (..., a string, ...) {\n+func tgq() (..., a Path, ...) {\n   ...\n }\n")
+			f.WriteString("package p\n\n")
+			for i, l := range cs.Lists {
+				f.WriteString(fmt.Sprintf("func tgt() (%s) {\n\tbody%d()\n\treturn\n}\n\n", strings.Join(l, ", "), i))
+			}
+		default:
+			p.WriteString("@@\nvar T identifier\n@@\n type T struct {\n   ...\n-  a string\n+  a Path\n   ...\n }\n")
+			f.WriteString("package p\n\n")
+			for i, l := range cs.Lists {
+				f.WriteString(fmt.Sprintf("type tgt%d struct {\n\t%s\n}\n\n", i, strings.Join(l, "\n\t")))
+			}
+		}
 	case "orphan":
 		// an elision on the '+' side only: there is nothing it could stand for
 		p.WriteString("@@\nvar x expression\n@@\n-tgt(" + strings.Join(cs.Pattern, ", ") + ")\n+tgq(" + strings.Join(append(append([]string{}, cs.Pattern...), "..."), ", ") + ")\n")
@@ -288,6 +313,47 @@ func evalC04x(cs *c04xCase) (sig, msg string, nontrivial bool, note string) {
 			}
 		}
 		return "", "", nontrivial, ""
+	case "grouped":
+		switch {
+		case r.Failed():
+			return "", "", false, "foreign:C08"
+		case r.ParseErr != "" || r.ApplyErr != "":
+			return "grouped:rejected", fmt.Sprintf("gopatch fails: %s%s\n%s", r.ParseErr, r.ApplyErr, show()), false, ""
+		}
+		// expected text: a list holding the element "a string" on its own
+		// is rewritten to "a Path" there, everything else stays as it is
+		want := file
+		for i, l := range cs.Lists {
+			hit := false
+			nl := append([]string{}, l...)
+			for j, e := range nl {
+				if e == "a string" {
+					nl[j], hit = "a Path", true
+					break
+				}
+			}
+			if !hit {
+				continue
+			}
+			nontrivial = true
+			switch cs.Pattern[0] {
+			case "params":
+				want = strings.Replace(want, fmt.Sprintf("func tgt(%s) {\n\tbody%d()", strings.Join(l, ", "), i), fmt.Sprintf("func tgq(%s) {\n\tbody%d()", strings.Join(nl, ", "), i), 1)
+			case "results":
+				want = strings.Replace(want, fmt.Sprintf("func tgt() (%s) {\n\tbody%d()", strings.Join(l, ", "), i), fmt.Sprintf("func tgq() (%s) {\n\tbody%d()", strings.Join(nl, ", "), i), 1)
+			default:
+				want = strings.Replace(want, fmt.Sprintf("type tgt%d struct {\n\t%s\n}", i, strings.Join(l, "\n\t")), fmt.Sprintf("type tgt%d struct {\n\t%s\n}", i, strings.Join(nl, "\n\t")), 1)
+			}
+		}
+		wt, err1 := parseTree([]byte(want))
+		gt, err2 := parseTree(r.Out)
+		if err1 != nil || err2 != nil {
+			return "", "", false, "foreign:C07"
+		}
+		if d := ref.FirstDifference(wt, gt, ref.Output); d != nil {
+			return "grouped:wrong-result", fmt.Sprintf("a field list with grouped names: the element \"a string\" is an instance only where it is declared on its own, and elided groups are reproduced as they are: %s\n%s", d.String(), show()), nontrivial, ""
+		}
+		return "", "", nontrivial, ""
 	case "orphan":
 		switch {
 		case r.Failed():
@@ -418,6 +484,47 @@ func c04xDraw(rt *rapid.T) *c04xCase {
 		}
 		if !hasChange {
 			cs.Lines[0].Prefix = "-"
+		}
+		return cs
+	}
+	if rapid.IntRange(0, 9).Draw(rt, "grouped") == 0 {
+		cs := &c04xCase{Mode: "grouped", Pattern: []string{rapid.SampledFrom([]string{"params", "results", "fields"}).Draw(rt, "groupedKind")}}
+		pool := []string{"a string", "a, b string", "b, a string", "c, d int", "e int", "x, y, z float64", "a int", "f func(a string)"}
+		n := rapid.IntRange(1, 4).Draw(rt, "nLists")
+		for i := 0; i < n; i++ {
+			k := rapid.IntRange(1, 4).Draw(rt, fmt.Sprintf("len%d", i))
+			var l []string
+			used := map[string]bool{}
+			for j := 0; j < k; j++ {
+				e := rapid.SampledFrom(pool).Draw(rt, fmt.Sprintf("e%d_%d", i, j))
+				// a name may be declared once per list
+				clash := false
+				for _, nm := range strings.FieldsFunc(strings.SplitN(e, " ", 2)[0]+","+strings.Join(strings.Split(strings.SplitN(e, " ", 2)[0], ","), ","), func(r rune) bool { return r == ',' || r == ' ' }) {
+					if used[nm] {
+						clash = true
+					}
+				}
+				names := strings.Split(e[:strings.LastIndex(e, " ")], ", ")
+				if strings.HasPrefix(e, "f func") {
+					names = []string{"f"}
+				}
+				for _, nm := range names {
+					if used[nm] {
+						clash = true
+					}
+				}
+				if clash {
+					continue
+				}
+				for _, nm := range names {
+					used[nm] = true
+				}
+				l = append(l, e)
+			}
+			if len(l) == 0 {
+				l = []string{"e int"}
+			}
+			cs.Lists = append(cs.Lists, l)
 		}
 		return cs
 	}
